@@ -78,7 +78,17 @@ class KindInterp(DictInterp):
             v = self.ev(c.args[0])
             a = self.ev(c.args[1])
             if isinstance(v, AObj) and isinstance(a, str):
-                return a in v.attrs
+                return a in v.attrs or ("%s.%s" % (ast.unparse(c.args[0]), a)) in self.env
+        if fn == "id" and len(c.args) == 1 and not c.keywords:
+            return ("id", id(self.ev(c.args[0])))          # object identity of the abstract value
+        if isinstance(c.func, ast.Attribute) and c.func.attr == "index" and len(c.args) == 1 and not c.keywords:
+            recv_ = self.ev(c.func.value)
+            if isinstance(recv_, (list, tuple)):
+                k_ = self.ev(c.args[0])
+                for i_, x_ in enumerate(recv_):
+                    if x_ is k_ or (type(x_) is type(k_) and not isinstance(x_, AObj) and x_ == k_):
+                        return i_
+                raise Raised("ValueError: not in list")
         if fn == "getattr" and len(c.args) in (2, 3):
             v = self.ev(c.args[0])
             a = self.ev(c.args[1])
